@@ -386,3 +386,15 @@ func Num(n int64) AV { s := strconv.FormatInt(n, 10); return AV{N: &s} }
 
 // Bool builds a BOOL attribute.
 func Bool(b bool) AV { return AV{BOOL: &b} }
+
+// Replace overwrites a stored item out of band (an operator's UpdateItem, long settled:
+// every read sees it); false if absent.
+func (d *Dynamo) Replace(id string, created int64, item map[string]AV) bool {
+	d.mu.Lock()
+	defer d.mu.Unlock()
+	if _, ok := d.items[id][created]; !ok {
+		return false
+	}
+	d.items[id][created] = cloneItem(item)
+	return true
+}
